@@ -362,7 +362,8 @@ P_ = "BlockCiphers.Proofs."
 TIES = {
     # code-level round trips: theorems whose statements mention only functions regenerated from /repo on this run
     "C01": [P_ + x for x in ["CodeXtea", "CodeSm4", "CodeCamellia", "CodeAria", "CodeMagma", "CodeBelt", "CodeDes", "CodeGift", "CodeSerpent",
-                             "CodeAesFs64", "CodeAesFs32", "CodeAesNi", "CodeAesArmv8"]],
+                             "CodeAesFs64", "CodeAesFs32", "CodeAesNi", "CodeAesArmv8", "CodeCast6", "CodeThreefish", "CodeKuznyechik", "CodeKuznyechikSoft",
+                             "CodeSpeck", "CodeCast5", "CodeRc2"]],
     "C02": [P_ + x for x in ["GenAesFs64Base", "GenAesFs64Ed128", "GenAesFs64Ed192", "GenAesFs64Ed256", "GenAesFs64Ed128c", "GenAesFs64Ed192c",
                              "GenAesFs64Ed256c", "GenAesFs64Ks128", "GenAesFs64Ks192", "GenAesFs64Ks256", "GenAesFs32", "GenAesFs32Keys",
                              "CodeAesFs64", "CodeAesFs32", "GenAesNi", "GenAesArmv8", "CodeAesNi", "CodeAesArmv8"]],
@@ -371,10 +372,11 @@ TIES = {
     "C05": [P_ + x for x in ["GenCipherDes", "GenKeysDes", "CodeDes"]],
     "C06": [P_ + x for x in ["GenCipherAria", "GenKeysAria", "GenCipherCamellia", "GenKeysCamellia", "GenCipherSm4", "GenKeysSm4",
                              "CodeAria", "CodeCamellia", "CodeSm4"]],
-    "C07": [P_ + x for x in ["GenCipherMagma", "GenKeysMagma", "GenCipherBelt", "GenKeysBelt", "CodeMagma", "CodeBelt"]],
-    "C08": [P_ + x for x in ["GenCipherSerpent", "GenKeysSerpent", "GenCipherCast6", "GenKeysCast6", "CodeSerpent"]],
-    "C09": [P_ + x for x in ["GenCipherCast5", "GenCipherRc2", "GenCipherXtea", "GenKeysXtea", "CodeXtea"]],
-    "C10": [P_ + x for x in ["GenCipherSpeck", "GenCipherThreefish", "GenKeysThreefish", "GenCipherGift", "GenKeysGift", "CodeGift"]],
+    "C07": [P_ + x for x in ["GenCipherMagma", "GenKeysMagma", "GenCipherBelt", "GenKeysBelt", "CodeMagma", "CodeBelt", "GenCipherKuznyechik", "GenKeysKuznyechik",
+                             "GenFuncsKuznyechik", "GenCipherKuznyechikSoft", "GenKeysKuznyechikSoft", "GenKuznyechikSoftTables", "CodeKuznyechik", "CodeKuznyechikSoft"]],
+    "C08": [P_ + x for x in ["GenCipherSerpent", "GenKeysSerpent", "GenCipherCast6", "GenKeysCast6", "CodeSerpent", "CodeCast6"]],
+    "C09": [P_ + x for x in ["GenCipherCast5", "GenCipherRc2", "GenCipherXtea", "GenKeysXtea", "CodeXtea", "GenKeysCast5", "CodeCast5", "GenKeysRc2", "CodeRc2"]],
+    "C10": [P_ + x for x in ["GenCipherSpeck", "GenCipherThreefish", "GenKeysThreefish", "GenCipherGift", "GenKeysGift", "CodeGift", "GenKeysSpeck", "CodeSpeck", "CodeThreefish"]],
 }
 
 
